@@ -95,8 +95,8 @@ func classify(report string) string {
 	switch {
 	case (has("InvalidateExpired") || has("DebugDump")) && has("SessionEntry"):
 		return "race-entry-expiration"
-	case has("SecurityManager"):
-		return "race-shared-config-securitymanager"
+	case has("security.NewAuthenticator") && has("SecurityManager"):
+		return "race-shared-config-secman"
 	case has("security.NewAuthenticator") && has("client.ConnectAndAuthenticateWithConfig"):
 		return "race-shared-config-client"
 	case has("security.NewAuthenticator"):
@@ -211,9 +211,6 @@ func judge(c *core.Ctx, s scen, o outcome) {
 	}
 	if !o.PostOK {
 		key := "post-" + s.Name
-		if s.Name == "secman-shared-config" {
-			key = "race-shared-config-securitymanager" // handshakes clobbering each other's key: same defect
-		}
 		c.OracleFail(key, fmt.Sprintf("%s (GOMAXPROCS=%d, seed %d): post-condition failed: %s", s.Name, s.Procs, s.Seed, strings.Join(o.Problems, "; ")), s)
 	}
 }
